@@ -51,7 +51,7 @@ DEPENDENT_DUP_METHODS = ("lots_qqs", "desc")
 
 ALL_KINDS = ("set_config", "parse", "parse_nc", "parse_tracts",
              "config_tracts", "preprocess", "sort", "filter", "filter_errors",
-             "filter_duplicates", "read")
+             "filter_duplicates", "read", "tract_parse", "tracts_edit")
 
 
 # --------------------------------------------------------------------------
@@ -64,6 +64,7 @@ def gen_plan(rng):
     if cls == "Tract":
         kinds = [k for k in kinds if k in
                  ("set_config", "parse", "parse_nc", "preprocess", "read")]
+    # (tract_parse / tracts_edit exist for PLSSDesc subjects only)
     if not kinds:
         kinds = ["parse", "parse_nc"]
     mode = rng.choice(("free", "repeat", "noncommit"))
@@ -131,7 +132,7 @@ def _gen_op(rng, cls, kind, pkw_names):
     if kind == "set_config":
         names = opgen.ALL_SETTINGS if cls == "PLSSDesc" else \
             opgen.TRACT_LEVEL + ("default_ns", "default_ew", "ocr_scrub")
-        return {"op": "set_config",
+        return {"op": "set_config", "cfg_obj": rng.random() < 0.2,
                 "config": opgen.gen_config_text(rng, names, lo=1, hi=3,
                                                 none_ok=False)}
     if kind == "parse":
@@ -147,9 +148,10 @@ def _gen_op(rng, cls, kind, pkw_names):
             cfg = opgen.gen_config_text(rng, tract_names, lo=1, hi=2,
                                         none_ok=False)
         return {"op": "parse_tracts", "config": cfg,
+                "cfg_obj": rng.random() < 0.3,
                 "kw": opgen.gen_kw(rng, opgen.TRACT_PARSE_KW, 0, 2)}
     if kind == "config_tracts":
-        return {"op": "config_tracts",
+        return {"op": "config_tracts", "cfg_obj": rng.random() < 0.3,
                 "config": opgen.gen_config_text(rng, tract_names, lo=1, hi=2,
                                                 none_ok=False)}
     if kind == "preprocess":
@@ -177,6 +179,14 @@ def _gen_op(rng, cls, kind, pkw_names):
         return {"op": "filter_duplicates",
                 "method": rng.choice(("instance", "lots_qqs", "desc", "trs")),
                 "drop": rng.random() < 0.5}
+    if kind == "tract_parse":
+        return {"op": "tract_parse", "i": rng.randrange(6),
+                "commit": rng.random() < 0.7,
+                "kw": opgen.gen_kw(rng, opgen.TRACT_PARSE_KW, 0, 2)}
+    if kind == "tracts_edit":
+        return {"op": "tracts_edit",
+                "how": rng.choice(("iadd", "imul", "insert", "setitem",
+                                   "reverse", "pop_append"))}
     if kind == "read":
         pool = READS_DESC if cls == "PLSSDesc" else READS_TRACT
         return {"op": "read", "what": rng.choice(pool)}
@@ -189,7 +199,7 @@ def _gen_op(rng, cls, kind, pkw_names):
 
 def is_pure(op):
     k = op["op"]
-    if k == "parse" or k == "preprocess":
+    if k == "parse" or k == "preprocess" or k == "tract_parse":
         return not op["commit"]
     if k == "read":
         return True
@@ -315,9 +325,36 @@ def _exec(pytrs, subj, op):
             return pytrs.PLSSDesc(op["text"], config=op["config"], **op["kw"])
         return pytrs.Tract(op["text"], trs=op["trs"], config=op["config"],
                            **op["kw"])
+    def cfg_of(op_):
+        c = op_["config"]
+        if op_.get("cfg_obj") and isinstance(c, str):
+            return pytrs.Config(c)
+        return c
+
     if k == "set_config":
-        subj.config = op["config"]
+        subj.config = cfg_of(op)
         return None
+    if k == "tract_parse":
+        n_ = len(subj.tracts)
+        if not n_:
+            return None
+        return subj.tracts[op["i"] % n_].parse(commit=op["commit"], **op["kw"])
+    if k == "tracts_edit":
+        tl = subj.tracts
+        how = op["how"]
+        if how == "iadd" and len(tl) <= 12:
+            tl += tl[:1]
+        elif how == "imul" and len(tl) <= 6:
+            tl *= 2
+        elif how == "insert" and len(tl):
+            tl.insert(0, tl[-1])
+        elif how == "setitem" and len(tl) > 1:
+            tl[0] = tl[1]
+        elif how == "reverse":
+            tl.reverse()
+        elif how == "pop_append" and len(tl):
+            tl.append(tl.pop(0))
+        return len(tl)
     if k == "parse":
         ret = subj.parse(commit=op["commit"], **op["kw"])
         if op.get("use_ret") and not op["commit"]:
@@ -326,9 +363,9 @@ def _exec(pytrs, subj, op):
             return {"__snapshot_before_use": snap}
         return ret
     if k == "parse_tracts":
-        return subj.parse_tracts(config=op["config"], **op["kw"])
+        return subj.parse_tracts(config=cfg_of(op), **op["kw"])
     if k == "config_tracts":
-        return subj.config_tracts(op["config"])
+        return subj.config_tracts(cfg_of(op))
     if k == "preprocess":
         return subj.preprocess(commit=op["commit"], **op["kw"])
     if k == "sort":
@@ -549,6 +586,28 @@ def normal_form(ops, raised, all_parsed=None):
             if not later:
                 out.append(op), idx.append(k)
             continue
+        if kind == "tract_parse":
+            erasable = False
+            for j in range(k + 1, n):
+                if raised[j] or _dependent(ops[j]):
+                    break
+                if ops[j]["op"] == "parse_tracts":
+                    erasable = True
+                    break
+            if not erasable and not op["kw"] and all_parsed is not None \
+                    and all_parsed[boundary] and not raised[boundary]:
+                # a plain re-parse of one tract whose results already stem
+                # from its current settings (nothing tract-level happened
+                # since the description-level parse, in H's own world)
+                quiet = not any(
+                    (not is_pure(ops[j])) and ops[j]["op"] in (
+                        "config_tracts", "parse_tracts", "tract_parse")
+                    or raised[j]
+                    for j in range(boundary + 1, k))
+                erasable = quiet
+            if not erasable:
+                out.append(op), idx.append(k)
+            continue
         if kind == "parse_tracts":
             erasable = False
             for j in range(k + 1, n):
@@ -581,7 +640,7 @@ def normal_form(ops, raised, all_parsed=None):
             start = idx.index(boundary) if boundary in idx else 0
             between = [(out[i], idx[i]) for i in range(start + 1, j)]
             blocked = any(
-                o["op"] in ("config_tracts", "parse_tracts")
+                o["op"] in ("config_tracts", "parse_tracts", "tract_parse")
                 or (ki is not None and raised[ki]) for o, ki in between)
             if not opj["config"] and not opj["kw"] and not blocked:
                 del out[j], idx[j]
